@@ -19,23 +19,23 @@ From Verif Require Proofs.EvalTotalFail.
 
 (* ---- (2) the evaluator's gate decides exactly as JSON Schema prescribes on this family ---- *)
 Theorem C08_evaluator_gate_is_instance : forall re D f (insch : in_schema) (iv : chain) (xin : xval),
-  in_wf insch = true -> export big_fuel iv = Some xin -> x_has_unknown xin = false ->
+  in_wf insch = true -> export_t iv = Some xin -> x_has_unknown xin = false ->
   Validate.vspec re D (S (S f)) (schema_of_in insch) (json_of_x xin) = Some (fst (validate (AccIn insch) iv)).
 Proof. exact evaluator_gate_is_instance. Qed.
 
 (* through the oracle of Corr/C05.v, in both directions *)
 Theorem C08_gate_implies_oracle_valid : forall (insch : in_schema) (iv : chain) (xin : xval),
-  fst (validate (AccIn insch) iv) = true -> export big_fuel iv = Some xin -> x_has_unknown xin = false ->
+  fst (validate (AccIn insch) iv) = true -> export_t iv = Some xin -> x_has_unknown xin = false ->
   C05.x_valid insch xin = true.
 Proof. exact Proofs.EvalLog2Valid.gate_implies_oracle_valid. Qed.
 
 Theorem C08_oracle_valid_implies_gate : forall (insch : in_schema) (iv : chain) (xin : xval),
-  in_wf insch = true -> export big_fuel iv = Some xin -> x_has_unknown xin = false ->
+  in_wf insch = true -> export_t iv = Some xin -> x_has_unknown xin = false ->
   C05.x_valid insch xin = true -> fst (validate (AccIn insch) iv) = true.
 Proof. exact oracle_valid_implies_gate. Qed.
 
 Theorem C08_gate_is_oracle : forall (insch : in_schema) (iv : chain) (xin : xval),
-  in_wf insch = true -> export big_fuel iv = Some xin -> x_has_unknown xin = false ->
+  in_wf insch = true -> export_t iv = Some xin -> x_has_unknown xin = false ->
   fst (validate (AccIn insch) iv) = C05.x_valid insch xin.
 Proof. exact gate_is_oracle. Qed.
 
@@ -46,7 +46,7 @@ Proof. exact vspec_family. Qed.
 
 (* ---- against the validator mirror with the parameters the Go source has today ---- *)
 Theorem C08_evaluator_gate_is_vimpl_instance : forall re D f (insch : in_schema) (iv : chain) (xin : xval),
-  in_wf insch = true -> export big_fuel iv = Some xin -> x_has_unknown xin = false ->
+  in_wf insch = true -> export_t iv = Some xin -> x_has_unknown xin = false ->
   exists d, Validate.vimpl C08.src_params re D (S (S f)) (schema_of_in insch) (json_of_x xin)
             = Some (fst (validate (AccIn insch) iv), d).
 Proof. exact (evaluator_gate_is_vimpl C08.src_params). Qed.
@@ -60,7 +60,7 @@ Theorem C08_family_side_conditions : forall insch, in_wf insch = true ->
 Proof. exact (fun insch H => conj (family_compiled insch H) (conj (family_in_vocabulary insch) (family_schema_integral insch))). Qed.
 
 Theorem C08_evaluator_gate_via_validate_agrees : forall re f (insch : in_schema) (iv : chain) (xin : xval),
-  in_wf insch = true -> export big_fuel iv = Some xin -> x_has_unknown xin = false ->
+  in_wf insch = true -> export_t iv = Some xin -> x_has_unknown xin = false ->
   Schema.value_integral (json_of_x xin) = true -> Schema.value_wf (json_of_x xin) = true ->
   exists d, Validate.vimpl C08.src_params re [] (S (S f)) (schema_of_in insch) (json_of_x xin)
             = Some (fst (validate (AccIn insch) iv), d).
@@ -118,7 +118,7 @@ Proof. exact validate_silent_corner_exact. Qed.
 
 (* the two models side by side, concrete inputs: (Open reached, error reported) of C08's gate = (accepted, count > 0) *)
 Theorem C08_gate_models_agree : forall re D f (insch : in_schema) (iv : chain) (xin : xval),
-  in_wf insch = true -> export big_fuel iv = Some xin -> x_has_unknown xin = false -> contains_unknowns iv = false ->
+  in_wf insch = true -> export_t iv = Some xin -> x_has_unknown xin = false -> contains_unknowns iv = false ->
   Validate.gate_impl C08.src_params re D (S (S f)) (schema_of_in insch) (json_of_x xin)
   = Some (fst (validate (AccIn insch) iv), negb (snd (validate (AccIn insch) iv) =? 0)).
 Proof.
